@@ -517,7 +517,8 @@ def resolver(fn, stop=()):
     def latest(name, lineno):
         """several definitions, all of them top-level statements of the function (straight-line code): the one in force at `lineno`"""
         ds = defs.get(name, [])
-        if name in params or name in stop or name in mutated or len(ds) < 2 or counts.get(name) != len(ds) or not all(id(d) in top for d in ds):
+        need = 1 if name in params else 2          # a parameter rebound once (x = np.array(x)) has the argument as its first value
+        if name in stop or name in mutated or len(ds) < need or counts.get(name) != len(ds) or not all(id(d) in top for d in ds):
             return None
         before = [d for d in ds if d.lineno < lineno]
         if not before:
